@@ -9,6 +9,7 @@ rk4
 implicit or backwardeuler
 trapezoidal or cranknicolson
 """
+import copy
 import math
 import sys
 import time
@@ -294,8 +295,8 @@ class timemodel(_coreiterative):
             while (isave < nsave) and (self.Qn.time+mindtloc >= tsave[isave]):
                 Qnn = self.Qn.copy()
                 if tsave[isave] > self.Qn.time:
-                    # compute smaller step with same integrator
-                    self.step(Qnn, tsave[isave]-self.Qn.time)
+                    # compute smaller step with (a copy of) same integrator: keeps integrator memory untouched
+                    copy.copy(self).step(Qnn, tsave[isave]-self.Qn.time)
                 Qnn.it = self._itstart + self._nit
                 results.append(Qnn)
                 if verbose:
